@@ -40,7 +40,7 @@ static int ref_cmp(int pt, const val_t* a, const val_t* b) {
     }
 }
 static int pool_of(int pt, int tlen, val_t* out) {
-    int n = 0; memset(out, 0, sizeof(val_t) * 8);
+    int n = 0; memset(out, 0, sizeof(val_t) * 12);
     switch (pt) {
     case PT_BOOLEAN: out[0].b[0] = 0; out[1].b[0] = 1; out[0].n = out[1].n = 1; return 2;
     case PT_INT32: { static const int32_t P[] = { 0, 1, -1, INT32_MIN, INT32_MAX, 256, 255 }; for (n = 0; n < 7; n++) { memcpy(out[n].b, &P[n], 4); out[n].n = 4; } return 7; }
@@ -48,8 +48,9 @@ static int pool_of(int pt, int tlen, val_t* out) {
     case PT_INT96: for (n = 0; n < 4; n++) { out[n].n = 12; out[n].b[n == 0 ? 0 : n == 1 ? 4 : n == 2 ? 8 : 11] = (uint8_t)(n + 1); } return 4;
     case PT_FLOAT: { static const uint32_t P[] = { 0x00000000u, 0x80000000u, 0x3f800000u, 0xbf800000u, 0x7f800000u, 0xff800000u, 0x7fc00000u }; for (n = 0; n < 7; n++) { memcpy(out[n].b, &P[n], 4); out[n].n = 4; } return 7; }
     case PT_DOUBLE: { static const uint64_t P[] = { 0, 0x8000000000000000ull, 0x3ff0000000000000ull, 0xbff0000000000000ull, 0x7ff0000000000000ull, 0xfff0000000000000ull, 0x7ff8000000000000ull }; for (n = 0; n < 7; n++) { memcpy(out[n].b, &P[n], 8); out[n].n = 8; } return 7; }
-    case PT_FLBA: for (n = 0; n < 5; n++) { out[n].n = tlen; memset(out[n].b, n == 0 ? 0x00 : n == 1 ? 0xff : n == 2 ? 0x7f : n == 3 ? 0x80 : 0x01, (size_t)tlen); if (n == 4 && tlen > 1) out[n].b[tlen - 1] = 0xfe; } return 5;
-    default: { static const char* S[] = { "", "a", "ab", "b", "\xff", "\x80z" }; for (n = 0; n < 6; n++) { out[n].n = (int)strlen(S[n]); memcpy(out[n].b, S[n], (size_t)out[n].n); } out[6].n = 257; memset(out[6].b, 'z', 257); return 7; }
+    case PT_FLBA: if (tlen == 8) { static const char* S8[] = { "AB000001", "BA000000", "AB000002", "zzzzzzzz", "\x01\x00\x00\x00\x00\x00\x00\x02" }; for (n = 0; n < 5; n++) { out[n].n = 8; memcpy(out[n].b, S8[n], 8); } return 5; }
+        for (n = 0; n < 5; n++) { out[n].n = tlen; memset(out[n].b, n == 0 ? 0x00 : n == 1 ? 0xff : n == 2 ? 0x7f : n == 3 ? 0x80 : 0x01, (size_t)tlen); if (n == 4 && tlen > 1) out[n].b[tlen - 1] = 0xfe; } return 5;
+    default: { static const char* S[] = { "", "a", "ab", "b", "\xff", "\x80z", "AB000001", "BA000000", "AB000001x" }; for (n = 0; n < 9; n++) { out[n].n = (int)strlen(S[n]); memcpy(out[n].b, S[n], (size_t)out[n].n); } out[9].n = 257; memset(out[9].b, 'z', 257); return 10; }     /* 8+ byte values whose first 8 bytes order differently as little-endian integers */
     }
 }
 
@@ -67,10 +68,10 @@ static void check_bounds(int pt, const val_t* vals, int nv, int64_t nulls, const
 }
 static void stage_builder(void) {
     mc_stage("a.statistics-builder.all-short-sequences.all-compositions");
-    static const struct { int pt, tl; } TY[] = { { PT_BOOLEAN, 0 }, { PT_INT32, 0 }, { PT_INT64, 0 }, { PT_INT96, 0 }, { PT_FLOAT, 0 }, { PT_DOUBLE, 0 }, { PT_BYTE_ARRAY, 0 }, { PT_FLBA, 3 }, { PT_FLBA, 300 } };
-    int L = mc_thorough() ? 6 : 5; val_t pool[8];
-    for (int t = 0; t < 9; t++) { int np = pool_of(TY[t].pt, TY[t].tl, pool);
-        for (int n = 0; n <= L; n++) { long tot = 1; for (int i = 0; i < n; i++) tot *= np;
+    static const struct { int pt, tl; } TY[] = { { PT_BOOLEAN, 0 }, { PT_INT32, 0 }, { PT_INT64, 0 }, { PT_INT96, 0 }, { PT_FLOAT, 0 }, { PT_DOUBLE, 0 }, { PT_BYTE_ARRAY, 0 }, { PT_FLBA, 3 }, { PT_FLBA, 300 }, { PT_FLBA, 8 } };
+    int L = mc_thorough() ? 6 : 5; val_t pool[12];
+    for (int t = 0; t < 10; t++) { int np = pool_of(TY[t].pt, TY[t].tl, pool);
+        for (int n = 0; n <= (np > 8 && L > 4 && !mc_thorough() ? 4 : L); n++) { long tot = 1; for (int i = 0; i < n; i++) tot *= np;
             for (long code = 0; code < tot; code++) for (uint32_t comp = 0; comp < (n > 0 ? (1u << (n - 1)) : 1); comp++) for (int nullmode = 0; nullmode < 3; nullmode++) {
                 if (!mc_next()) continue;
                 val_t vals[8]; long v = code; for (int i = 0; i < n; i++) { vals[i] = pool[v % np]; v /= np; }
@@ -139,11 +140,13 @@ static void widen(int pt, val_t* v, int dir) {      /* make a bound looser (stil
 static void stage_pruning(void) {
     mc_stage("c.row-group-pruning.reference-files.all-operators.all-probes");
     static const struct { int pt, tl; } TY[] = { { PT_INT32, 0 }, { PT_INT64, 0 }, { PT_FLOAT, 0 }, { PT_DOUBLE, 0 }, { PT_BYTE_ARRAY, 0 }, { PT_FLBA, 2 } };
-    for (int t = 0; t < 6; t++) for (int G = 1; G <= 4; G++) for (int layout = 0; layout < (G == 1 ? 6 + 729 : 6); layout++) for (int statmode = 0; statmode < 5; statmode++) for (int opt = 0; opt < 2; opt++) {
+    for (int nested = 0; nested < 2; nested++) for (int t = 0; t < 6; t++) for (int G = 1; G <= 4; G++) for (int layout = 0; layout < (G == 1 && !nested ? 6 + 729 : 6); layout++) for (int statmode = 0; statmode < 5; statmode++) for (int opt = 0; opt < 2; opt++) {
+        /* nested: root { optional group g { required int32 pad; <the column> } }: the queried column is leaf 1, schema element 3 */
         /* statmode: 0 exact new fields, 1 widened, 2 deprecated fields (byte arrays: bounds in the unsigned byte order carquet compares in), 3 absent, 4 absent with NaN data (float types) */
         int pt = TY[t].pt; if (statmode == 4 && pt != PT_FLOAT && pt != PT_DOUBLE) continue;
         if (!mc_next()) continue;
-        mc_desc("c16c:type=%d;groups=%d;layout=%d;stats=%d;opt=%d", pt, G, layout, statmode, opt); mc_case_key(mc_mix(0x16c, ((uint64_t)t << 40) | ((uint64_t)G << 32) | ((uint64_t)layout << 12) | ((uint64_t)statmode << 4) | (uint64_t)opt)); mc_nontrivial();
+        mc_desc("c16c:type=%d;groups=%d;layout=%d;stats=%d;opt=%d;nested=%d", pt, G, layout, statmode, opt, nested); mc_case_key(mc_mix(0x16c, ((uint64_t)nested << 48) | ((uint64_t)t << 40) | ((uint64_t)G << 32) | ((uint64_t)layout << 12) | ((uint64_t)statmode << 4) | (uint64_t)opt)); mc_nontrivial();
+        const int QC = nested ? 1 : 0;      /* index of the queried column */
         /* data: 3 rows per group from a per-type ordered pool of 9 values; layout decides which values each group holds */
         val_t pool[16]; int np = 0; memset(pool, 0, sizeof pool);
         for (int i = 0; i < 9; i++) { val_t* v = &pool[np++];
@@ -159,22 +162,28 @@ static void stage_pruning(void) {
             switch (layout) { case 0: i = (g * 2 + r) % 9; break; case 1: i = (g * 3 + r * 2) % 9; break; case 2: i = (8 - g * 2 - r + 9) % 9; break; case 3: i = (g * 4) % 9; break; case 4: i = r == 1 ? 8 - g : g; break; default: i = (r * 4 + g) % 9; break; } pick[g][r] = i; }
         rfile_t f; memset(&f, 0, sizeof f); f.ncols = 1; f.col[0].ptype = pt; f.col[0].tlen = TY[t].tl; f.col[0].opt = opt; f.N = 3; f.nrg = 1; f.crc = true;
         /* build the file group by group through ref_pq_write directly (rfile_t has one shape per group) */
-        ref_schema_elem sc[2]; memset(sc, 0, sizeof sc); sc[0].name = (ref_bin){ (const uint8_t*)"schema", 6, true }; sc[0].has_num_children = true; sc[0].num_children = 1; sc[1].name = (ref_bin){ (const uint8_t*)"v", 1, true }; sc[1].has_type = true; sc[1].type = pt; sc[1].has_rep = true; sc[1].rep = opt; if (pt == PT_FLBA) { sc[1].has_type_length = true; sc[1].type_length = 2; }
-        ref_coldata cols[4]; ref_chunk_layout L[4]; ref_stats st[4]; int64_t rows[4]; memset(cols, 0, sizeof cols); memset(L, 0, sizeof L); memset(st, 0, sizeof st); static val_t lo[4], hi[4]; bool nan_row[4][3]; memset(nan_row, 0, sizeof nan_row);
+        ref_schema_elem sc[4]; memset(sc, 0, sizeof sc); int ns = 0; sc[ns].name = (ref_bin){ (const uint8_t*)"schema", 6, true }; sc[ns].has_num_children = true; sc[ns].num_children = 1; ns++;
+        if (nested) { sc[ns].name = (ref_bin){ (const uint8_t*)"g", 1, true }; sc[ns].has_num_children = true; sc[ns].num_children = 2; sc[ns].has_rep = true; sc[ns].rep = 1; ns++; sc[ns].name = (ref_bin){ (const uint8_t*)"pad", 3, true }; sc[ns].has_type = true; sc[ns].type = PT_INT32; sc[ns].has_rep = true; sc[ns].rep = 0; ns++; }
+        sc[ns].name = (ref_bin){ (const uint8_t*)"v", 1, true }; sc[ns].has_type = true; sc[ns].type = pt; sc[ns].has_rep = true; sc[ns].rep = opt; if (pt == PT_FLBA) { sc[ns].has_type_length = true; sc[ns].type_length = 2; } ns++;
+        const int NLF = nested ? 2 : 1, MD = opt + nested; static int16_t paddef[4] = { 1, 1, 1, 1 }, padrep[4]; static uint8_t padval[16] = { 9 };
+        ref_coldata colsall[8]; ref_chunk_layout Lall[8]; memset(colsall, 0, sizeof colsall); memset(Lall, 0, sizeof Lall); ref_coldata* cols[4]; ref_chunk_layout* L[4];
+        ref_stats st[4]; int64_t rows[4]; memset(st, 0, sizeof st); static val_t lo[4], hi[4]; bool nan_row[4][3]; memset(nan_row, 0, sizeof nan_row);
         for (int g = 0; g < G; g++) {
-            ref_coldata* c = &cols[g]; c->ptype = pt; c->type_length = TY[t].tl; c->max_def = opt; c->nlevels = 3; c->def = ref_alloc(&RA, 8); c->rep = ref_alloc(&RA, 8); c->fixed = ref_alloc(&RA, 64); c->strs = ref_alloc(&RA, sizeof(ref_str) * 4); rows[g] = 3;
+            cols[g] = &colsall[g * NLF + QC]; L[g] = &Lall[g * NLF + QC];
+            if (nested) { ref_coldata* pc = &colsall[g * NLF]; pc->ptype = PT_INT32; pc->max_def = 1; pc->nlevels = 3; pc->def = paddef; pc->rep = padrep; pc->nvalues = 3; pc->fixed = padval; Lall[g * NLF].crc = true; }
+            ref_coldata* c = cols[g]; c->ptype = pt; c->type_length = TY[t].tl; c->max_def = MD; c->nlevels = 3; c->def = ref_alloc(&RA, 8); c->rep = ref_alloc(&RA, 8); c->fixed = ref_alloc(&RA, 64); c->strs = ref_alloc(&RA, sizeof(ref_str) * 4); rows[g] = 3;
             bool first = true;
-            for (int r = 0; r < 3; r++) { bool null = opt && r == (g % 3); c->def[r] = opt ? (null ? 0 : 1) : 0; if (null) continue; val_t v = pool[pick[g][r]];
+            for (int r = 0; r < 3; r++) { bool null = opt && r == (g % 3); c->def[r] = (int16_t)(null ? MD - 1 : MD); if (null) continue; val_t v = pool[pick[g][r]];
                 if (statmode == 4 && r == 2) { if (pt == PT_FLOAT) { float q = NAN; memcpy(v.b, &q, 4); } else { double q = NAN; memcpy(v.b, &q, 8); } nan_row[g][r] = true; }
                 if (pt == PT_BYTE_ARRAY) { uint8_t* cp = ref_alloc(&RA, (size_t)v.n + 1); memcpy(cp, v.b, (size_t)v.n); c->strs[c->nvalues].p = cp; c->strs[c->nvalues].n = (uint32_t)v.n; } else memcpy(c->fixed + c->nvalues * v.n, v.b, (size_t)v.n);
                 c->nvalues++;
                 if (!is_nan(pt, &v)) { if (first || ref_cmp(pt, &v, &lo[g]) < 0) lo[g] = v; if (first || ref_cmp(pt, &v, &hi[g]) > 0) hi[g] = v; first = false; } }
-            L[g].crc = true;
+            L[g]->crc = true;
             if (statmode <= 2 && !first) { if (statmode == 1) { widen(pt, &lo[g], -1); widen(pt, &hi[g], +1); }
                 if (statmode == 2) { st[g].min = (ref_bin){ lo[g].b, lo[g].n, true }; st[g].max = (ref_bin){ hi[g].b, hi[g].n, true }; } else { st[g].min_value = (ref_bin){ lo[g].b, lo[g].n, true }; st[g].max_value = (ref_bin){ hi[g].b, hi[g].n, true }; }
-                st[g].has_null_count = true; st[g].null_count = 3 - c->nvalues; L[g].chunk_stats = &st[g]; }
+                st[g].has_null_count = true; st[g].null_count = 3 - c->nvalues; L[g]->chunk_stats = &st[g]; }
         }
-        ref_write_req rq; memset(&rq, 0, sizeof rq); rq.schema = sc; rq.nschema = 2; rq.nleaves = 1; rq.nrg = G; rq.rg_rows = rows; rq.cols = cols; rq.layouts = L; ref_buf img; ref_buf_init(&img);
+        ref_write_req rq; memset(&rq, 0, sizeof rq); rq.schema = sc; rq.nschema = ns; rq.nleaves = NLF; rq.nrg = G; rq.rg_rows = rows; rq.cols = colsall; rq.layouts = Lall; ref_buf img; ref_buf_init(&img);
         if (ref_pq_write(&RA, &rq, &img, NULL, 0, NULL)) mc_harness_error("reference writer failed");
         uint8_t* x = mc_exact(img.p, img.n); carquet_error_t err = CARQUET_ERROR_INIT; carquet_reader_t* rd = carquet_reader_open_buffer(x, img.n, NULL, &err);
         if (!rd) { mc_fail("pruning.open-failed", "code %d %s", err.code, err.message); free(x); ref_buf_free(&img); ref_arena_free(&RA); continue; }
@@ -183,12 +192,12 @@ static void stage_pruning(void) {
         if (pt == PT_FLOAT) { float q = NAN; memset(&probes[npr], 0, sizeof(val_t)); memcpy(probes[npr].b, &q, 4); probes[npr++].n = 4; } if (pt == PT_DOUBLE) { double q = NAN; memset(&probes[npr], 0, sizeof(val_t)); memcpy(probes[npr].b, &q, 8); probes[npr++].n = 8; }
         for (int pi = 0; pi < npr; pi++) for (int op = 0; op < 6; op++) {
             bool truth[4], says[4]; int kept[4], nk = 0; uint8_t* pv = mc_exact(probes[pi].b, (size_t)probes[pi].n);
-            for (int g = 0; g < G; g++) { truth[g] = false; int vi = 0; for (int r = 0; r < 3; r++) { if (opt && r == (g % 3)) continue; val_t xv; memset(&xv, 0, sizeof xv); if (pt == PT_BYTE_ARRAY) { xv.n = (int)cols[g].strs[vi].n; memcpy(xv.b, cols[g].strs[vi].p, (size_t)xv.n); } else { xv.n = probes[pi].n > 0 && pt != PT_BYTE_ARRAY ? ref_type_width(pt, TY[t].tl) : 0; memcpy(xv.b, cols[g].fixed + vi * xv.n, (size_t)xv.n); } vi++; if (row_matches(pt, &xv, op, &probes[pi])) truth[g] = true; }
-                bool mm = true; carquet_status_t s2 = carquet_reader_row_group_matches(rd, g, 0, (carquet_compare_op_t)op, pv, probes[pi].n, &mm); says[g] = s2 != CARQUET_OK ? true : mm; if (says[g]) kept[nk++] = g; mc_count(says[g] ? (truth[g] ? "groups.kept.matching" : "groups.kept.not-matching") : "groups.pruned", 1);
+            for (int g = 0; g < G; g++) { truth[g] = false; int vi = 0; for (int r = 0; r < 3; r++) { if (opt && r == (g % 3)) continue; val_t xv; memset(&xv, 0, sizeof xv); if (pt == PT_BYTE_ARRAY) { xv.n = (int)cols[g]->strs[vi].n; memcpy(xv.b, cols[g]->strs[vi].p, (size_t)xv.n); } else { xv.n = probes[pi].n > 0 && pt != PT_BYTE_ARRAY ? ref_type_width(pt, TY[t].tl) : 0; memcpy(xv.b, cols[g]->fixed + vi * xv.n, (size_t)xv.n); } vi++; if (row_matches(pt, &xv, op, &probes[pi])) truth[g] = true; }
+                bool mm = true; carquet_status_t s2 = carquet_reader_row_group_matches(rd, g, QC, (carquet_compare_op_t)op, pv, probes[pi].n, &mm); says[g] = s2 != CARQUET_OK ? true : mm; if (says[g]) kept[nk++] = g; mc_count(says[g] ? (truth[g] ? "groups.kept.matching" : "groups.kept.not-matching") : "groups.pruned", 1);
                 if (truth[g] && !says[g]) { char key[160]; static const char* ON[] = { "eq", "ne", "lt", "le", "gt", "ge" }; static const char* SN[] = { "exact", "widened", "deprecated-fields", "absent", "absent-nan-data" };
                     snprintf(key, sizeof key, "pruning.false-negative.%s.%s.%s", ON[op], is_nan(pt, &probes[pi]) ? "nan-probe" : "probe", SN[statmode]); mc_fail(key, "type=%d group %d of %d: a row matches (x %s %s) but row_group_matches says no match; stats [%s, %s]", pt, g, G, ON[op], mc_hex(probes[pi].b, (size_t)probes[pi].n, 10), mc_hex(lo[g].b, (size_t)lo[g].n, 10), mc_hex(hi[g].b, (size_t)hi[g].n, 10)); }
                 if (statmode >= 3 && !says[g]) mc_fail("pruning.absent-statistics-pruned", "type=%d group %d: no statistics, yet row_group_matches says no match", pt, g); }
-            for (int cap = 1; cap <= G + 1; cap++) { int32_t* out = mc_exact(NULL, sizeof(int32_t) * (size_t)cap); int32_t n = carquet_reader_filter_row_groups(rd, 0, (carquet_compare_op_t)op, pv, probes[pi].n, out, cap); int want = nk < cap ? nk : cap; bool ok = n == want; for (int i = 0; ok && i < want; i++) ok = out[i] == kept[i];
+            for (int cap = 1; cap <= G + 1; cap++) { int32_t* out = mc_exact(NULL, sizeof(int32_t) * (size_t)cap); int32_t n = carquet_reader_filter_row_groups(rd, QC, (carquet_compare_op_t)op, pv, probes[pi].n, out, cap); int want = nk < cap ? nk : cap; bool ok = n == want; for (int i = 0; ok && i < want; i++) ok = out[i] == kept[i];
                 if (!ok) mc_fail("pruning.filter-row-groups-list", "type=%d op=%d cap=%d: returned %d groups, row_group_matches keeps %d", pt, op, cap, n, nk); free(out); }
             free(pv); mc_count("predicates.checked", 1);
         }
